@@ -35,7 +35,7 @@ class Check17(ScenarioCheck):
 
 CHECK = Check17(
     "C17", ["SimVerif.Props.C17"], "kernel", gen.generate, spec.check, nontrivial,
-    "sessions = valid negotiations v4/v5 x CONNECT/BIND/UDP ASSOCIATE x IPv4/host name (incl. names of <= 3 bytes and literals) x reachable/refusing/unresolvable, every single cut of the short negotiations (one scenario per cut, pieces spaced in time) and random multi-cuts (chained or spaced), conforming and pipelined clients, payload 0..70000 bytes both ways in chunks 1..65536; malformed = every byte position of the negotiation x {0,1,2,3,4,5,0x7f,0x80,0xff} + random mutation (byte, truncation + close, extension, swap, random bytes) with optional 200 kB tail; UDP datagrams valid/truncated/mutated/random with echoing target; 2-4 concurrent or successive clients per proxy; stop() at virtual times / step-hook boundaries; lossy queues, NAT, small queue capacities from gen/net_gen.py; non-trivial = a reply reached a client and >= 6 handlers ran; distinct = distinct implementation trace",
+    "sessions = valid negotiations v4/v5 x CONNECT/BIND/UDP ASSOCIATE x IPv4/host name (incl. names of <= 3 bytes and literals) x reachable/refusing/unresolvable, every single cut of the short negotiations (one scenario per cut, pieces spaced in time) and random multi-cuts (chained or spaced), conforming and pipelined clients, payload 0..70000 bytes both ways in chunks 1..65536; malformed = every byte position of the negotiation x {0,1,2,3,4,5,0x7f,0x80,0xff} + random mutation (byte, truncation + close, extension, swap, random bytes) with optional 200 kB tail; UDP ASSOCIATE naming the client's address or 0.0.0.0 and its port or 0 (port learnt from the first datagram), by host name in the request (handled as CONNECT), up to two associations per proxy; UDP datagrams valid/truncated/mutated/random with echoing target; directed loss-free families u* (UDP delivery both ways demanded) and b* (BIND: third party reports its endpoint, second reply and relay of up to 70000 bytes each way demanded completely); 2-4 concurrent or successive clients per proxy; stop() at virtual times / step-hook boundaries; about 20 % of the worlds lossy (scripted droppers, bounded queues from gen/net_gen.py), the others without any bounded queue (there the monitor demands completeness), NAT; non-trivial = a reply reached a client and >= 6 handlers ran; distinct = distinct implementation trace",
     TRUSTED, ASSUME, spec_scn=True)
 
 
